@@ -181,7 +181,9 @@ def _mutation_wrapper(
     def wrapped(*args, **kwargs):
         with MutationContext(module, method, attribute):
             # This handles the case of an `EvolvableWrapper`
-            if attribute not in module.mutation_methods:
+            if attribute not in module.mutation_methods and not getattr(
+                module, "_mutations_forwarded", False
+            ):
                 module.last_mutation_attr = None
                 module.last_mutation = None
                 return
@@ -703,6 +705,10 @@ class EvolvableWrapper(EvolvableModule):
         # Disable mutations in the wrapped module since these are
         # now handled by the wrapper
         module.disable_mutations()
+
+        # ... but the wrapper forwards to the wrapped module's own methods, which must
+        # still apply the mutation when they are reached through the wrapper
+        module._mutations_forwarded = True
         self._wrapped = module
 
     @property
